@@ -4,6 +4,7 @@ import SLModel.Core.PlanLeaf
 import SLModel.Core.Script
 import SLModel.Core.Msm
 import SLModel.Core.RescoreDrop
+import SLModel.Core.HistFill
 open Lean
 namespace SL.Drv.C16
 open SL.Drv
@@ -238,6 +239,35 @@ def rescoreDropOp (req : Json) : Except String Json := do
     | some k => Json.mkObj [("cls", "ok"), ("kept", natsToJson k), ("unsorted_variant", unsorted)]
     | none => Json.mkObj [("cls", "panic"), ("unsorted_variant", unsorted)]
 
+/-! ### histogram fill -/
+open SL.HistFill in
+def fillOutJson (o : Option Out) : Json :=
+  match o with
+  | some (.done ks) => Json.mkObj [("cls", "done"), ("inserted", ks.length)]
+  | some (.overflow ks) => Json.mkObj [("cls", "overflow"), ("inserted", ks.length)]
+  | none => Json.mkObj [("cls", "never")]
+
+open SL.HistFill in
+/-- `{"op":"hist_fill","start":i,"stop":j}` (ends as the code computes them, at most 10^4 apart)
+and `{"op":"date_fill","step":ms,"start":i,"stop":j}` -/
+def histFillOp (req : Json) : Except String Json := do
+  let start ← getInt req "start"
+  let stop ← getInt req "stop"
+  let fuel := (stop - start).toNat + 3
+  return Json.mkObj [("repaired", fillOutJson (fill fuel start stop [])), ("legacy", fillOutJson (legacyFill fuel start stop []))]
+
+open SL.HistFill in
+def dateFillOp (req : Json) : Except String Json := do
+  let step ← getInt req "step"
+  let start ← getInt req "start"
+  let stop ← getInt req "stop"
+  let fuel := min ((stop - start).toNat + 3) 20000
+  let out : Json := match dateFill step fuel start stop 0 with
+    | some (.past k) => Json.mkObj [("cls", "past"), ("inserted", k)]
+    | some (.addOverflow k) => Json.mkObj [("cls", "add-overflow"), ("inserted", k)]
+    | none => Json.mkObj [("cls", "never")]
+  return Json.mkObj [("step_ok", dateStepOk step), ("fill", out)]
+
 def handle (req : Json) : Except String Json := do
   let op ← getStr req "op"
   match op with
@@ -246,6 +276,8 @@ def handle (req : Json) : Except String Json := do
   | "script" => scriptOp req
   | "msm" => msmOp req
   | "rescore_drop" => rescoreDropOp req
+  | "hist_fill" => histFillOp req
+  | "date_fill" => dateFillOp req
   | _ => throw s!"C16: unknown op {op}"
 
 end SL.Drv.C16
